@@ -32,8 +32,9 @@ for f in sorted(glob.glob("/verif/seeded/*/meta.json")):
     rows.append((sid, "caught:" + ",".join(caught) if caught else "NOT-CAUGHT rc=" + ",".join(str(r) for _, r, _ in res), res[0][2] if res else ""))
     print(rows[-1], flush=True)
 head = subprocess.run("git -C /repo rev-parse --short HEAD; git -C /verif rev-parse --short HEAD", shell=True, capture_output=True, text=True).stdout.split()
-if not only:
-    with open("/verif/SEEDED_RECHECK.txt", "w") as f:
+out_file = os.environ.get("SEED_RECHECK_OUT", "/verif/SEEDED_RECHECK.txt" if not only else "")
+if out_file:
+    with open(out_file, "w") as f:
         f.write(f"# re-check of all stored seeded changes: repo {head[0]}, harness {head[1]}\n")
         for r in rows:
             f.write(" | ".join(r) + "\n")
